@@ -89,6 +89,24 @@ def overriding_pairs(r):
         out.append([a, b])
         out.append([b, a])
         out.append([a, b, {"services": {"s": {"tags": ["c"], "calls": [["WithY", [], True]]}}}])
+    # booleans spelled out on both sides (an explicit false is a value, not an absence), and attributes set only in the FIRST of
+    # several files (they must survive later files that do not mention them)
+    import copy
+    a2 = copy.deepcopy(a)
+    a2["services"]["s"].update({"todo": False, "must_getter": True})
+    a2["meta"]["default_must_getter"] = True
+    a2["services"]["t"] = {"value": "Value", "getter": "GetT"}
+    a3 = copy.deepcopy(a2)
+    a3["services"]["s"]["todo"] = True
+    a3["services"]["s"]["must_getter"] = False
+    a3["meta"]["default_must_getter"] = False
+    for b in [{"services": {"s": {"todo": True}}}, {"services": {"s": {"todo": False}}}, {"services": {"s": {"must_getter": False}}}, {"services": {"s": {"must_getter": True}}},
+              {"meta": {"default_must_getter": False}}, {"meta": {"default_must_getter": True}}, {"meta": {"pkg": "three"}}, {"meta": {}}, {"parameters": {"zz": 1}}, {}]:
+        for base in (a2, a3):
+            out.append([base, b])
+            out.append([b, base])
+            out.append([base, b, {"parameters": {"last": 1}}])
+            out.append([base, {"services": {"u": {"value": "Value"}}}, b, {}])
     return out
 
 
